@@ -170,6 +170,41 @@ def r2_synthesised_names_bound(ctx):
                 for k in cands:
                     if isinstance(k.value, str) and k.value != "self" and not hasattr(builtins, k.value):
                         lits.add(k.value)
+    # names built from a template: the per-site temporaries are stored (walrus) and loaded under the same template; a
+    # template that is only ever *loaded* is a global the re-compiler has to provide - and a global that varies with
+    # the call site but does not carry the function's number is shared by every function of the module
+    def templates(ctxname):
+        out = {}
+        for m in rw.methods.values():
+            local_defs = {}
+            for a in ast.walk(m.node):
+                if isinstance(a, ast.Assign) and len(a.targets) == 1 and isinstance(a.targets[0], ast.Name) and isinstance(a.value, ast.JoinedStr):
+                    local_defs[a.targets[0].id] = a.value
+            for c in ast.walk(m.node):
+                if isinstance(c, ast.Call) and call_name(c) == "ast.Name" and any(k.arg == "ctx" and ctxname in src(k.value) for k in c.keywords):
+                    idv = next((k.value for k in c.keywords if k.arg == "id"), c.args[0] if c.args else None)
+                    if isinstance(idv, ast.Name) and idv.id in local_defs:
+                        idv = local_defs[idv.id]
+                    if isinstance(idv, ast.JoinedStr):
+                        import re as _re
+
+                        # the literal parts and the number of holes identify the template, not the holes' expressions
+                        out[_re.sub(r"§[^§]*§", "§", str_value(idv) or src(idv))] = (m, c)
+        return out
+
+    loaded, stored = templates("Load"), templates("Store")
+    load_only = {t: v for t, v in loaded.items() if t not in stored}
+    for t, (m_, c_) in sorted(load_only.items()):
+        ctx.touch(m_)
+        ctx.ob(
+            f"{m_.key}:templated-global:{t[:30]}",
+            m_.loc(c_),
+            "a name the rewriter builds from a template and only loads is one of its per-site temporaries (stored under the same template)",
+            False,
+            f"the rewriter emits the global name `{t}` (built per call site, never assigned by the rewritten code): it has to be planted in the module's globals under a name that does not carry the function's number, so every overloaded function of the module shares it and the one built last decides for all of them",
+        )
+    if not lits and load_only:
+        return
     ctx.require(lits, "the rewriter no longer emits a named helper global (restructured)")
     for lit in sorted(lits):
         st = stores.get(repr(lit))
